@@ -99,6 +99,55 @@ Definition cstep (st : cstate) (ev : cev) : cstate :=
 Definition emitted (evs : list cev) (cs : list comment) : list comment :=
   let (out, pend) := fold_left cstep evs ([], cs) in out ++ pend.     (* ++ pend: the final flush of printFile *)
 
+(* ---- statement headers the printer re-synthesises: the if / else-if ladder (print_stmt.go printIf, statement_control.go
+   parseIf).  Init statements, conditions and blocks are opaque items; what is modelled is which keyword and which item
+   goes where: every rung has its own optional init. *)
+Inductive htok := HIf | HElse | HSemi | HInit (i : N) | HCond (c : N) | HBody (b : N).
+Record rung := mkRung { r_init : option N; r_cond : N; r_body : N }.
+Record ladder := mkLadder { l_first : rung; l_rest : list rung; l_else : option N }.
+
+Definition print_rung (r : rung) : list htok :=
+  HIf :: (match r_init r with Some i => [HInit i; HSemi] | None => [] end) ++ [HCond (r_cond r); HBody (r_body r)].
+Definition print_ladder (l : ladder) : list htok :=
+  print_rung (l_first l) ++ flat_map (fun r => HElse :: print_rung r) (l_rest l) ++
+  match l_else l with Some b => [HElse; HBody b] | None => [] end.
+
+Definition parse_rung (ts : list htok) : option (rung * list htok) :=
+  match ts with
+  | HIf :: HInit i :: HSemi :: HCond c :: HBody b :: r => Some (mkRung (Some i) c b, r)
+  | HIf :: HCond c :: HBody b :: r => Some (mkRung None c b, r)
+  | _ => None
+  end.
+Fixpoint parse_tail (fuel : nat) (ts : list htok) : option (list rung * option N * list htok) :=
+  match fuel with
+  | O => None
+  | S f =>
+      match ts with
+      | HElse :: HBody b :: r => Some ([], Some b, r)
+      | HElse :: r =>
+          match parse_rung r with
+          | Some (rg, r') =>
+              match parse_tail f r' with
+              | Some (rs, e, r'') => Some (rg :: rs, e, r'')
+              | None => None
+              end
+          | None => None
+          end
+      | _ => Some ([], None, ts)
+      end
+  end.
+Definition parse_ladder (ts : list htok) : option (ladder * list htok) :=
+  match parse_rung ts with
+  | Some (r1, r) =>
+      match parse_tail (S (List.length r)) r with
+      | Some (rs, e, r') => Some (mkLadder r1 rs e, r')
+      | None => None
+      end
+  | None => None
+  end.
+Definition htok_code (t : htok) : N :=
+  match t with HIf => 1 | HElse => 2 | HSemi => 3 | HInit _ => 4 | HCond _ => 5 | HBody _ => 6 end.
+
 (* ---- helpers for the correspondence run *)
 Definition eatom_eqb (a b : eatom) : bool :=
   match a, b with
